@@ -4,6 +4,7 @@ import (
 	"fmt"
 	"go/types"
 	"reflect"
+	"strings"
 )
 
 // More of the reflect API, so that refactors of zog that reach for other reflect calls are
@@ -107,11 +108,31 @@ func init() {
 		},
 		"(reflect.Value).IsNilSafe": nil,
 		"(reflect.Value).FieldByIndex": func(fr *frame, a []value) value {
-			v := a[0]
-			for _, ix := range a[1].([]value) {
-				v = ext۰reflect۰Value۰Field(fr, []value{v, ix})
+			index := make([]int, len(a[1].([]value)))
+			for k, ix := range a[1].([]value) {
+				index[k] = ix.(int)
 			}
-			return v
+			return reflectFieldByIndex(fr, a[0], index)
+		},
+		"(reflect.Value).FieldByIndexErr": func(fr *frame, a []value) (res value) {
+			index := make([]int, len(a[1].([]value)))
+			for k, ix := range a[1].([]value) {
+				index[k] = ix.(int)
+			}
+			defer func() {
+				if r := recover(); r != nil {
+					if tp, ok := r.(targetPanic); ok {
+						if it, ok := tp.v.(iface); ok {
+							if msg, _ := it.v.(string); strings.Contains(msg, "nil pointer to embedded struct") {
+								res = tuple{structure{rtype{nil}, nil, (*value)(nil), false}, errVal("reflect: indirection through nil pointer to embedded struct field")}
+								return
+							}
+						}
+					}
+					panic(r)
+				}
+			}()
+			return tuple{reflectFieldByIndex(fr, a[0], index), iface{}}
 		},
 		"(reflect.Value).Slice": func(fr *frame, a []value) value {
 			x := rV2V(a[0]).([]value)
